@@ -220,9 +220,16 @@ static struct bufferevent_ops VF_OPS;
 
 /* ------------------------------------------------------------------ user callbacks */
 static size_t vf_choose_size(void) { size_t hi = VF_CHOOSE(), lo = VF_CHOOSE(); return (hi << 32) | lo; }
+/* C19 "no callback runs after bufferevent_free or after callbacks are cleared": with VF_C19_CLEAR_ACTION a user
+ * callback may clear the callbacks (what bufferevent_setcb(bev, NULL, NULL, NULL, NULL) and bufferevent_free do first);
+ * any user callback invoked after that is an obligation failure (asserted in vf_seq_push) */
+int g_cb_cleared;
 static void vf_user_action(void)
 {
 	unsigned c;
+#ifdef VF_C19_CLEAR_ACTION
+	if (VF_CHOOSE() & 1u) { BEV->readcb = NULL; BEV->writecb = NULL; BEV->errorcb = NULL; g_cb_cleared = 1; }
+#endif
 	if (!g_e.user_mutates) return;
 	c = VF_CHOOSE();
 	if (c & 1u) g_e.len_in = vf_choose_size();              /* evbuffer_drain / _remove / _add on the input */
@@ -234,6 +241,9 @@ static void vf_user_action(void)
 	(r).len_in = g_e.len_in; (r).len_out = g_e.len_out; (r).low_r = BEV->wm_read.low; (r).low_w = BEV->wm_write.low; (r).enabled = BEV->enabled; (r).dis_calls = g_e.dis_calls; } while (0)
 static void vf_seq_push(int kind, short what, void *arg)
 {
+#ifdef VF_C19_CLEAR_ACTION
+	__CPROVER_assert(!g_cb_cleared, "C19: no user callback runs after the callbacks were cleared (bufferevent_setcb NULL / bufferevent_free) from inside a callback");
+#endif
 	g_e.nseq++;
 	if (kind == VF_CB_READ) VF_CBREC_FILL(g_e.rd, what, arg);
 	else if (kind == VF_CB_WRITE) VF_CBREC_FILL(g_e.wr, what, arg);
